@@ -193,6 +193,10 @@ fn run_local(case: &Case, out: &mut Out) {
       "q" => match ev[1].atom() {
         "closed" => {
           let c = sub.as_ref().map_or(true, |u| u.is_closed());
+          if locktrace::is_on() {
+            // the acquisitions of the query itself belong to no event's lock trace
+            let _ = locktrace::take();
+          }
           out.emit(k, format!("closed={}", c as u8));
         }
         "pulls" => out.emit(k, format!("pulls={}", ctx.counters.borrow().pulls)),
@@ -294,6 +298,10 @@ fn run_threads(case: &Case, out: &mut Out) {
       "q" => match ev[1].atom() {
         "closed" => {
           let c = sub.as_ref().map_or(true, |u| u.is_closed());
+          if locktrace::is_on() {
+            // the acquisitions of the query itself belong to no event's lock trace
+            let _ = locktrace::take();
+          }
           out.emit(k, format!("closed={}", c as u8));
         }
         "pulls" => out.emit(k, format!("pulls={}", ctx.counters.lock().unwrap().pulls)),
